@@ -114,6 +114,26 @@ def run(chk):
                 else:
                     ok = False
             d = {"fn": c, "at": "%s:%s" % (b.file, t["ln"]), "consumers": [cc[0] for cc in consumers]}
+            if not ok:
+                # other accepted idiom: `match explicit { Some(z) => z, None => *ctx.timezone() }` — the read sits on the None edge of a
+                # test on an Option that derives from the timezone argument and is unreachable from its Some edge
+                import cfgq
+                tz_params = [i for i in range(1, b.argc + 1) if (b.local_name(i) or "").lower() in ("timezone", "tz")]
+                for sbb, place, adt, tg, other in cfgq.discr_switches_on(facts, b, lambda p_, a_: a_ == "std::option::Option"):
+                    src = flow_sources(b, place["l"], pass_through=lambda c_: True)
+                    if not any(("arg", i) in src for i in tz_params):
+                        continue
+                    none_t = tg.get("None")
+                    some_t = tg.get("Some", other)
+                    if none_t is None:
+                        none_t = other
+                    if none_t is None or some_t is None or none_t == some_t:
+                        continue
+                    from_none = b.reachable_from_edges([none_t], avoid=[sbb])
+                    from_some = b.reachable_from_edges([some_t], avoid=[sbb])
+                    if bb in from_none and bb not in from_some:
+                        ok = True
+                        d["discharged_by"] = "read only on the None edge of the test on the explicit timezone (line %s)" % b.term(sbb).get("ln")
             chk.instance(rid, d, ok=ok)
             if not ok:
                 chk.violation(rid, b.file, c, "ctx.timezone() used beyond the argument default",
